@@ -428,3 +428,47 @@ func TestPropCLI(t *testing.T) {
 		}
 	})
 }
+
+// Hundreds of classes, most of them singletons, through the real command (and
+// its ordered writer): the merged classes leave the dereplicator in batches of
+// 100, --no-singleton can empty whole batches, and the output must still hold
+// every class that is kept.
+func TestPropManyClasses(t *testing.T) {
+	rapid.Check(t, func(rt *rapid.T) {
+		c := genCase(rt, 12, 1)
+		extra := rapid.IntRange(120, 600).Draw(rt, "n_singleton_classes")
+		base := len(c.Pool)
+		c.Pool = append(c.Pool, genPoolExtra(rt, c.Pool, extra)...)
+		blank := func() Rec {
+			return Rec{Attr: make([]Val, len(c.Keys)), Pre: make([]*Merged, len(c.Keys))}
+		}
+		// where the few non-singleton classes sit among the singletons decides which output batches are emptied
+		dupEvery := rapid.SampledFrom([]int{0, 0, 97, 150, 211}).Draw(rt, "duplicate_every")
+		for i := 0; i < extra; i++ {
+			r := blank()
+			r.ID = fmt.Sprintf("x%d", i)
+			r.Seq = base + i
+			c.Recs = append(c.Recs, r)
+			if (dupEvery > 0 && i%dupEvery == dupEvery-1) || i == extra-1 {
+				r2 := blank()
+				r2.ID = fmt.Sprintf("x%d_again", i)
+				r2.Seq = base + i
+				r2.Count = rapid.IntRange(0, 3).Draw(rt, "dup_count")
+				c.Recs = append(c.Recs, r2)
+			}
+		}
+		c.NoSingleton = rapid.IntRange(0, 3).Draw(rt, "no_singleton") > 0
+		c.RT = -1
+		if len(c.Runs) > 2 {
+			c.Runs = c.Runs[:2]
+		}
+		for i := range c.Runs {
+			c.Runs[i].Procs = 0
+		}
+		s := c.stats()
+		evid.Eval("cli", caseHash(c), c.NoSingleton, nil, append(classesOf(c, s), "command_tier", "hundreds_of_classes")...)
+		if err := checkCLI(c); err != nil {
+			evid.Fail(rt, "cli", c, err)
+		}
+	})
+}
